@@ -603,6 +603,14 @@ func TestCurrency(t *testing.T) {
 		checkMultFloat(rt, mult, 1/float64(n))
 		checkMultFloat(rt, mult, float64(gen.Uniform(rt, 1, 7, "sharek"))/float64(n))
 		checkMultFloat(rt, uint64(gen.Uniform(rt, 1<<21, 1<<33, "wholec")), float64(gen.Uniform(rt, 1<<21, 1<<33, "wholea")))
+		// a short binary fraction (k/2^m) of an amount of 40..53 bits, also just below 2^53
+		m := gen.Uniform(rt, 1, 32, "dyadm")
+		k := uint64(gen.Uniform(rt, 0, 1<<uint(m)-1, "dyadk")) | 1
+		dy := float64(k) / float64(uint64(1)<<uint(m))
+		checkMultFloat(rt, uint64(1)<<53-uint64(gen.Uniform(rt, 1, 4096, "below53")), dy)
+		checkMultFloat(rt, uint64(gen.Uniform(rt, 1<<40, 1<<53, "dyadc")), dy)
+		// whole tokens above the signed range
+		checkToZCN(rt, (uint64(gen.Uniform(rt, 922337203, 1844674407, "wholetokens")))*10000000000)
 		checkParse(rt, f)
 		checkToZCN(rt, a)
 		checkToZCN(rt, b%1000000000000000)
